@@ -60,10 +60,12 @@ func structuredInput(c *RNG) []byte {
 func init() {
 	register(&Prop{
 		ID:       "C08",
-		Rule:     "every payloader and option setting x MTU 0-65535 (half of the mass on 0-12) x inputs seeded with start codes, OBU headers, VP9 frame headers and NAL type bytes, nil and empty; histories of 1-6 calls on one instance with the caller overwriting each input after the call; observables include per fragment whether it is disjoint from every caller buffer; non-trivial = a call that returned >= 2 fragments",
+		Rule:     "every payloader and option setting x MTU 0-65535 (half of the mass on 0-12) x inputs seeded with start codes, OBU headers, VP9 frame headers and NAL type bytes, nil and empty; AV1 cases with the free packet space at the LEB128 boundaries 128 and 16384; histories of 1-6 calls on one instance with the caller overwriting each input after the call; observables include per fragment whether it is disjoint from every caller buffer; non-trivial = a call that returned >= 2 fragments",
 		Quick:    6000,
 		Thorough: 300000,
 		Gen: func(r *RNG, tier string, n int, emit func(op int, toks ...Tok)) {
+			// AV1: free packet space at the LEB128 size boundaries (the MTU bound is tightest there)
+			emitAv1LebEdges(r.Fork(808080), []int{128, 16384}, emit)
 			for i := 0; i < n; i++ {
 				c := r.Fork(uint64(i))
 				mtu := func() int64 {
